@@ -348,6 +348,8 @@ class Check:
             coverage["exhaustive"] = exhaustive
         if extra_coverage:
             coverage.update(extra_coverage)
+        if self.extra:
+            coverage.update(self.extra)
         ev = {
             "property_id": self.prop,
             "tier": self.tier if self.tier in ("quick", "thorough") else "quick",
